@@ -267,6 +267,9 @@ pub fn gen_cfg(id: &str, tier: Tier, variant: u64) -> GenCfg {
         "C08" if variant % 4 == 2 => {
             let mut g = GenCfg::new(Mode::Elide, ops);
             g.weights.remove = 12;
+            // an allocation can also be given up through try_unwrap / make_mut
+            g.weights.consume = 1;
+            g.weights.unique_root = 3;
             g
         }
         "C16" if variant % 4 == 2 => {
